@@ -414,14 +414,18 @@ pub fn udivrem(a: &B, b: &B) -> (B, B) {
 }
 /// b^k truncated to n bytes, and whether it overflowed n bytes
 pub fn upow(b: &B, k: u32, n: usize) -> (B, bool) {
+    let tb = trim(b.clone());
     let mut acc = small(n, 1);
     let mut ov = false;
     for _ in 0..k {
-        let p = umul(&acc, b);
-        if p[n..].iter().any(|x| *x != 0) {
+        let p = umul(&trim(acc.clone()), &tb);
+        if p.len() > n && p[n..].iter().any(|x| *x != 0) {
             ov = true;
         }
-        acc = p[..n].to_vec();
+        acc = fit(&p[..p.len().min(n)].to_vec(), n);
+        if ov {
+            break;
+        }
     }
     (acc, ov)
 }
